@@ -139,6 +139,20 @@ type c11Case struct {
 	// Pipelined: the start-up packet (the password) and the whole session are sent in ONE write, without waiting
 	// for any answer
 	Pipelined bool
+	// CloseDuring: Server.Close is called (by another goroutine) while a statement of the session is half-way
+	// through its rows (at its yield point); the statement goes on once Close is waiting for it
+	CloseDuring bool
+}
+
+// c11CloseHook arms the recorder: at the first yield point of a statement Server.Close is called concurrently.
+func c11CloseHook(rec *script.Rec, srv *harness.Server) {
+	fired := false
+	rec.Hook = func(ctx context.Context, where string) {
+		if where == "yield" && !fired {
+			fired = true
+			harness.CloseWhileBusy(srv.Srv)
+		}
+	}
 }
 
 func (c c11Case) String() string {
@@ -148,6 +162,9 @@ func (c c11Case) String() string {
 	}
 	if c.Pipelined {
 		return fmt.Sprintf("tls=%s auth=%s client=%s session=%v sent in one write together with the start-up packet", c.Cfg, c.Auth, c.Behave, names)
+	}
+	if c.CloseDuring {
+		return fmt.Sprintf("tls=%s auth=%s client=%s session=%v, Server.Close is called while the statement is half-way through its rows", c.Cfg, c.Auth, c.Behave, names)
 	}
 	if c.ClientAuth != 0 || c.ClientCert {
 		return fmt.Sprintf("tls=%s server_client_auth=%v client_presents_certificate=%v auth=%s-password client=%s session=%v", c.Cfg, c.ClientAuth, c.ClientCert, c.Auth, c.Behave, names)
@@ -181,6 +198,9 @@ func c11Plain(c c11Case) ([]string, []string, string) {
 		return nil, nil, err.Error()
 	}
 	defer one.Stop()
+	if c.CloseDuring {
+		c11CloseHook(rec, one.Server)
+	}
 	var all []byte
 	if c.Pipelined {
 		out, _ := one.Step(c11Flight(c))
@@ -238,6 +258,9 @@ func c11RunInner(c c11Case) explore.Result {
 		return res
 	}
 	c11Last = one.Server
+	if c.CloseDuring {
+		c11CloseHook(rec, one.Server)
+	}
 	defer func() {
 		if !one.Server.AnyWedged() {
 			one.Stop() // (Close would wait for a wedged command for ever)
@@ -575,6 +598,16 @@ func c11Enumerate(tier string, emit explore.Emit) {
 		for _, b := range []string{"plaintext-instead", "second-ssl", "cancel-after"} {
 			c := c11Case{Cfg: cfg, Behave: b, Hist: []c11Letter{letters[0]}}
 			emit(explore.Case{Family: "tls", Size: 1, Desc: func() any { return c.String() }, Run: func() explore.Result { return c11Run(c) }})
+		}
+	}
+	// Server.Close while a statement of the (upgraded / refused / plaintext) session is half-way through its rows
+	for _, cfg := range []string{"certs", "nil", "empty"} {
+		for _, auth := range []string{"", "good"} {
+			for _, q := range []c11Letter{{"Query(row, yield, row)", pgproto.Query("1:r,y,r,c=T")},
+				{"Parse+Bind+Execute+Sync(row, yield, row)", pgproto.Cat(pgproto.Parse("", "1:r,y,r,c=T"), pgproto.Bind("", "", nil, nil, nil), pgproto.Execute("", 0), pgproto.Sync())}} {
+				c := c11Case{Cfg: cfg, Behave: "session", Auth: auth, CloseDuring: true, Hist: []c11Letter{q}}
+				emit(explore.Case{Family: "tls", Size: 3, Desc: func() any { return c.String() }, Run: func() explore.Result { return c11Run(c) }})
+			}
 		}
 	}
 	// authentication over the upgraded connection (accepted and rejected), and sessions that arrive after
